@@ -10,7 +10,7 @@ sys.path.insert(0, os.getcwd())
 from lib import vcheck
 for p in sorted(glob.glob('props/C*.json')):
     pid = os.path.basename(p)[:-5]
-    vcheck.extract_facts(pid)
+    vcheck.extract_facts(vcheck.load_registry(pid).get('facts_pid', pid))
     print('facts', pid)
 PY
 cd lean
